@@ -5,7 +5,7 @@ META = {
              "NamedTemporaryFile and pool.map, every (function, k-th invocation) reached; then one run per fault point raises "
              "an InjectedFault there (quick: k in {1, last}; thorough: k in {1, 2, middle, last} and a BaseException variant for "
              "the cache-lifetime functions; pool workers are targeted by task start index). Postconditions of every run: the "
-             "call raised and the injected fault is in its exception chain; the private TMPDIR holds no *.hdf5; the user's "
+             "call raised and the injected fault is in its exception chain; the sampler's private temporary directory holds no file with a suffix (cache, partial or renamed); the user's "
              "file has the same sha256; no descriptor to an .hdf5 file stays open; a following marginal_ln_likelihood on the "
              "same TheJoker is bit-identical to the clean run and a following rejection_sample satisfies the acceptance rule "
              "on its own recorded uniforms. Clean runs assert 'cache removed, user file unchanged' too. "
@@ -52,7 +52,9 @@ def leftovers(tmpdir):
     out = []
     for root, _, files in os.walk(tmpdir):
         for fn in files:
-            if fn.endswith((".hdf5", ".h5")):
+            # any file with a suffix: a partial file under another name (".hdf5.part", ".tmp") is as much a leak as the
+            # cache itself. Suffix-less "tmpXXXXXXXX" files are pytensor's fgraph_to_python sources (linker=py), not thejoker's.
+            if "." in fn or not (fn.startswith("tmp") and len(fn) == 11):
                 out.append(os.path.join(root, fn))
     return out
 
@@ -114,7 +116,7 @@ def run(ctx):
             bad = []
             lo = leftovers(tmpd)
             if lo:
-                bad.append(("cache-file-leaked", "%s: temporary HDF5 left behind: %s" % (when, [os.path.basename(x) for x in lo])))
+                bad.append(("cache-file-leaked", "%s: temporary file left behind: %s" % (when, [os.path.basename(x) for x in lo])))
                 for x in lo:
                     os.unlink(x)
             if not os.path.exists(upath) or sha(upath) != usha:
